@@ -98,7 +98,7 @@ def check(case, stats):
             where = f"schedule {si} call #{ci} {call} (phase {phase}, {completed} instructions completed, done={done})"
             try:
                 if call == "run":
-                    core.call_with_limit(fn, 60, "run-does-not-return", case, where)
+                    core.call_with_limit(fn, 10, "run-does-not-return", case, where)   # the reference stops within 400 steps (~10 ms)
                 else:
                     fn()
                 raised = None
